@@ -56,7 +56,8 @@ def _fu_gen(rng, case):
     if case["significance"] == "float":
         return dict(value=rng.uniform(-5, 5), dvalue=rng.choice([0.0, 0.3]), significance=2.0)
     e = rng.randint(-6, 5)
-    d = rng.choice([0.0, rng.uniform(1.05, 9.4) * 10.0 ** e, rng.uniform(1.05, 9.4) * 10.0 ** e])
+    # mantissas away from a power of ten, and mantissas whose rounding carries into the next decade (9.96 -> 10)
+    d = rng.choice([0.0, rng.uniform(1.05, 9.4) * 10.0 ** e, rng.uniform(1.05, 9.4) * 10.0 ** e, rng.choice([9.96, 9.996, 9.51, 9.9996]) * 10.0 ** e])
     return dict(value=rng.choice([0.0, 1.0, -1.0]) * rng.uniform(0.001, 3000) , dvalue=d, significance=rng.choice([-1, 0, 1, 2, 2, 3, 4, 5]))
 
 
@@ -310,6 +311,15 @@ contract(
 # ---------------------------------------------------------------------------------------------------
 # scalar views: ordering comparisons, float(), zero-within-n-sigma use exactly the central value and the error
 
+def _cmp_gen(rng, case):
+    o = _native_scalar_obs(rng)
+    if case["other"] == "int":
+        other = rng.choice([int(round(o.value)), 0, 1, -2])
+    else:
+        other = rng.choice([float(o.value), float(o.value), float(o.value) + 0.5, float(o.value) - 0.25, 0.0])
+    return dict(self=o, other=other)
+
+
 _CMP = {"__lt__": lambda x, y: x < y, "__le__": lambda x, y: x <= y, "__gt__": lambda x, y: x > y, "__ge__": lambda x, y: x >= y}
 
 for _m, _f in _CMP.items():
@@ -318,6 +328,7 @@ for _m, _f in _CMP.items():
         params=dict(self=OBS, other=OneOf(float=Real(), int=Int())),
         ensures=(lambda f: lambda a, r: {"compares the central value": Iff(r, f(_val(a.self), a.other))})(_f),
         result=(lambda f: lambda a, ctx: f(_val(a.self), a.other))(_f),
+        gen=lambda rng, case: _cmp_gen(rng, case),
         crosscheck=False,
     )
 
